@@ -4,7 +4,8 @@ import os
 
 import flowjobs
 import vlib
-from props import c03
+import codec
+import codec
 
 LEVEL = "model_checking"
 
@@ -56,39 +57,53 @@ def judge(ctx, proto, job, r, want_n):
                           {"job": job, "cut": k}, key="trunc-fabricates")
 
 
-def ipfix_part(ctx, thorough):
-    cases = c03.tlc_cases(ctx, thorough, trunc="TRUE", skip="TRUE")
-    ctx.note("TLC checked SkipTransparent/TruncationPrefix on and emitted %d IPFIX message histories" % len(cases))
-    drv = ctx.go_build_test("ipfix", ["ipfix/decode_verif_test.go", "ipfix/infomodel_verif_test.go"])
-    eldir = c03.elements_dir(ctx)
+def v9_inserts():
+    def s(sid, body):
+        n = 4 + len(body)
+        return [sid >> 8, sid & 255, n >> 8, n & 255] + body
+    return [s(999, []), s(999, [7]), s(999, [1, 2, 3, 4, 5]), s(40000, list(range(64))),
+            s(4, []), s(2, [7, 7, 7, 7, 7, 7, 7, 7]), s(3, [0, 0]), s(255, [0, 9, 0, 8, 1, 1, 1, 1, 2]), s(100, list(range(1, 34))),
+            s(300, [10, 0, 0, 1, 9, 9, 9, 9]), s(300, [10, 0, 0, 1, 9, 9, 9, 9, 10, 0, 0, 2, 8, 8, 8, 8])]
+
+TBAD_MSG_V9 = [0, 9, 0, 1] + [0] * 16 + [0, 0, 0, 16, 1, 44, 0, 2, 0, 8, 0, 4, 39, 15, 0, 4]
+
+
+def part(ctx, proto, thorough):
+    name = codec.P[proto]["name"]
+    cases = codec.tlc_cases(ctx, proto, thorough, trunc="TRUE", skip="TRUE")
+    ctx.note("TLC checked SkipTransparent/TruncationPrefix on and emitted %d %s message histories" % (len(cases), name))
+    drv = codec.driver(ctx, proto)
+    eldir = codec.elements_dir(ctx)
     exps = flowjobs.exporters(ctx.seed)
-    stride = 1 if thorough else 6
+    stride = 1 if thorough else (6 if proto == "ipfix" else 2)
     jobs, wants = [], []
-    ins = ipfix_inserts()
+    ins = ipfix_inserts() if proto == "ipfix" else v9_inserts()
+    tbad = TBAD_MSG if proto == "ipfix" else TBAD_MSG_V9
     for ci, c in enumerate(cases):
         if (ci + ctx.seed) % stride:
             continue
-        hdr = [0, 10, 0, 0] + c["hdr"]["time"] + c["hdr"]["seq"] + c["hdr"]["dom"]
-        jobs.append({"exp": exps[ci % len(exps)], "hist": [TBAD_MSG] + c["hist"], "hdr": hdr, "sets": c["sets"],
-                     "inserts": ins, "truncate": True})
+        jobs.append({"exp": exps[ci % len(exps)], "hist": [tbad] + c["hist"], "hdr": codec.enc_hdr(proto, c["hdr"]),
+                     "sets": c["sets"], "inserts": ins, "truncate": True})
         wants.append(len(c["want"]))
-    res = flowjobs.run_jobs(ctx, drv, "TestVerifIPFIXVariants", jobs, env={"VERIF_ELEMENTS_DIR": eldir}, tag="v", timeout=3000)
+    res = flowjobs.run_jobs(ctx, drv, codec.P[proto]["variants"], jobs, env={"VERIF_ELEMENTS_DIR": eldir}, tag="v_" + proto, timeout=5000)
     for job, r, w in zip(jobs, res, wants):
-        judge(ctx, "ipfix", job, r, w)
+        if not r.get("skipped"):
+            judge(ctx, proto, job, r, w)
     ctx.traces_validated += len(jobs)
     j = jobs[len(jobs) // 2]
-    ctx.sample({"proto": "ipfix", "message_sets": j["sets"], "history": j["hist"], "inserted_sets": ins[:3], "truncations": "every offset"})
+    ctx.sample({"proto": proto, "message_sets": j["sets"], "history": j["hist"], "inserted_sets": ins[:3], "truncations": "every offset"})
 
 
 def check(ctx):
     thorough = ctx.tier == "thorough"
     ctx.rule = ("every message history emitted by the bounded-exhaustive exporters (IPFIXGen.tla / NetFlow9Gen.tla; TLC checks "
-                "SkipTransparent and TruncationPrefix on the reference collector for each) x every set boundary x 10 undecodable "
+                "SkipTransparent and TruncationPrefix on the reference collector for each) x every set boundary x 10-11 undecodable "
                 "sets (unknown template ids, reserved ids, a template using an element missing from the model; bodies of 0..64 "
                 "octets) and x every truncation offset 0..len is decoded by the real decoder; oracle = the property (records of "
                 "the other sets identical to the decode without the inserted set; truncated output a prefix of the complete "
                 "output). One evaluation = one variant decode; non-trivial when the complete message carries records.")
     ctx.assumptions += ["reserved set ids are 4..255 for IPFIX (0 and 1 are 'not used', RFC 7011 3.3.2) and 2..255 for NetFlow v9",
-                        "quick tier replays every 6th emitted history (offset by the seed); thorough replays all"]
+                        "quick tier replays every 6th (IPFIX) / 2nd (v9) emitted history, offset by the seed; thorough replays all"]
     ctx.exhaustive = thorough
-    ipfix_part(ctx, thorough)
+    part(ctx, "ipfix", thorough)
+    part(ctx, "v9", thorough)
